@@ -57,7 +57,8 @@ pub struct DCase {
 
 fn commit_of(c: u8) -> (AutoCommit, bool, &'static str) {
     // (mode, commits-on-consumption, name)
-    match c % 8 {
+    let hour = IggyDuration::from(3_600_000_000u64);
+    match c % 14 {
         0 => (AutoCommit::Disabled, true, "disabled"),
         1 => (AutoCommit::When(AutoCommitWhen::PollingMessages), false, "when-polling"),
         2 => (AutoCommit::When(AutoCommitWhen::ConsumingAllMessages), true, "when-all"),
@@ -65,8 +66,29 @@ fn commit_of(c: u8) -> (AutoCommit, bool, &'static str) {
         4 => (AutoCommit::When(AutoCommitWhen::ConsumingEveryNthMessage(3)), true, "when-every-3rd"),
         5 => (AutoCommit::After(AutoCommitAfter::ConsumingAllMessages), true, "after-all"),
         6 => (AutoCommit::After(AutoCommitAfter::ConsumingEachMessage), true, "after-each"),
-        _ => (AutoCommit::After(AutoCommitAfter::ConsumingEveryNthMessage(2)), true, "after-every-2nd"),
+        7 => (AutoCommit::After(AutoCommitAfter::ConsumingEveryNthMessage(2)), true, "after-every-2nd"),
+        // the interval variants: with an interval of one hour only the `When` half can act within a case
+        8 => (AutoCommit::Interval(hour), true, "interval-1h"),
+        9 => (AutoCommit::IntervalOrWhen(hour, AutoCommitWhen::PollingMessages), false, "interval-or-when-polling"),
+        10 => (AutoCommit::IntervalOrWhen(hour, AutoCommitWhen::ConsumingAllMessages), true, "interval-or-when-all"),
+        11 => (AutoCommit::IntervalOrWhen(hour, AutoCommitWhen::ConsumingEachMessage), true, "interval-or-when-each"),
+        12 => (AutoCommit::IntervalOrWhen(hour, AutoCommitWhen::ConsumingEveryNthMessage(3)), true, "interval-or-when-every-3rd"),
+        _ => (AutoCommit::Interval(IggyDuration::from(20_000u64)), true, "interval-20ms"),
     }
+}
+
+/// modes in which a `next`-polling consumer used as a plain stream never moves the stored offset within a case
+fn never_commits(mode: &AutoCommit) -> bool {
+    match mode {
+        AutoCommit::Disabled | AutoCommit::After(_) | AutoCommit::IntervalOrAfter(_, _) => true,
+        AutoCommit::Interval(d) => d.as_micros() >= 1_000_000_000,
+        _ => false,
+    }
+}
+
+/// commit-when-polling (alone or as the `When` half of IntervalOrWhen)
+fn commits_when_polling(mode: &AutoCommit) -> bool {
+    matches!(mode, AutoCommit::When(AutoCommitWhen::PollingMessages) | AutoCommit::IntervalOrWhen(_, AutoCommitWhen::PollingMessages))
 }
 
 fn payload(serial: u32) -> Vec<u8> {
@@ -89,7 +111,7 @@ impl Engine for SdkClients {
         (
             (1u32..=3, prop_oneof![Just(0u16), Just(1), Just(3), Just(100)], prop_oneof![3 => Just(0u8), 1 => Just(1u8)], 0u8..3),
             proptest::collection::vec(call, 1..=maxc),
-            (0u8..3, 1u8..50, 0u8..8, 0u8..3),
+            (0u8..3, 1u8..50, 0u8..14, 0u8..3),
             proptest::collection::vec(0u8..40, 0..3),
         )
             .prop_map(|((partitions, batch_size, interval_ms, partitioning), calls, (c_part, c_batch, commit, polling), stops)| DCase {
@@ -132,7 +154,7 @@ impl Engine for SdkClients {
         }
     }
     fn rule(&self, _p: &Params) -> String {
-        "case = producer settings (batch size none/1/3/100, send interval none/1 ms, partitioning balanced / partition id / key) + a generated list of calls (send n, send_one, send_with_partitioning(explicit partition), send_to(another topic)) + consumer settings (partition, batch size 1..49, one of 8 auto-commit modes, polling next / offset(0) / first) + a list of stop points at which the consumer is dropped and re-created with the same identity; oracle: server-side full reads show every produced message exactly once in exactly the addressed stream/topic(/partition); each consumer instance yields strictly increasing offsets without holes from its start; all instances together yield every message of the partition; the server-side committed offset never exceeds what was fetched and, in the commit-on-consumption modes, what was yielded; with 'next' polling a re-created consumer starts right after the committed offset; non-trivial = >=1 send_to or explicit-partition call, or >=1 consumer re-creation after >=1 yielded message".into()
+        "case = producer settings (batch size none/1/3/100, send interval none/1 ms, partitioning balanced / partition id / key) + a generated list of calls (send n, send_one, send_with_partitioning(explicit partition), send_to(another topic)) + consumer settings (partition, batch size 1..49, one of 14 auto-commit modes (Disabled, When x4, After x3, Interval 1 h / 20 ms, IntervalOrWhen(1 h, ..) x4), polling next / offset(0) / first) + a list of stop points at which the consumer is dropped and re-created with the same identity; oracle: server-side full reads show every produced message exactly once in exactly the addressed stream/topic(/partition); each consumer instance yields strictly increasing offsets without holes from its start; all instances together yield every message of the partition; the server-side committed offset never exceeds what was fetched and, in the commit-on-consumption modes, what was yielded; with 'next' polling a re-created consumer starts right after the committed offset; non-trivial = >=1 send_to or explicit-partition call, or >=1 consumer re-creation after >=1 yielded message".into()
     }
     fn assumptions(&self, _p: &Params) -> Vec<String> {
         vec![
@@ -335,7 +357,7 @@ async fn drive(case: &DCase, p: &Params, addr: &str, node: &Node, admin: &iggy::
         // forever. Masked = the batch size is raised to n for exactly that combination.
         let mut c_batch = case.c_batch.max(1) as u32;
         let nth = match mode {
-            AutoCommit::When(AutoCommitWhen::ConsumingEveryNthMessage(n)) => n,
+            AutoCommit::When(AutoCommitWhen::ConsumingEveryNthMessage(n)) | AutoCommit::IntervalOrWhen(_, AutoCommitWhen::ConsumingEveryNthMessage(n)) => n,
             _ => 0,
         };
         if case.polling % 3 == 0 && nth > c_batch && p.masked("KF-C20-2") {
@@ -359,7 +381,7 @@ async fn drive(case: &DCase, p: &Params, addr: &str, node: &Node, admin: &iggy::
                     idle_windows += 1;
                     // (only with `next` polling does a consumer owe the whole rest of the partition; `first` and
                     // `offset(0)` re-read the same batch by design)
-                    if reached_end || idle_windows >= 20 || case.polling % 3 != 0 {
+                    if reached_end || idle_windows >= 20 || case.polling % 3 != 0 || never_commits(&mode) {
                         break;
                     }
                     continue;
@@ -438,10 +460,10 @@ async fn drive(case: &DCase, p: &Params, addr: &str, node: &Node, admin: &iggy::
     // with auto-commit disabled cannot advance unless the application stores offsets itself
     // (the After(..) modes are carried out by the consumer_ext helpers after the application's handler ran;
     // a consumer used as a plain stream never commits in these modes, like Disabled)
-    let by_design_static = case.polling % 3 == 2 || (case.polling % 3 == 0 && matches!(mode, AutoCommit::Disabled | AutoCommit::After(_)));
+    let by_design_static = case.polling % 3 == 2 || (case.polling % 3 == 0 && never_commits(&mode));
     // commit-when-polling is at-most-once by design: what a dropped instance had fetched (and thereby
     // committed) but not yet yielded is skipped by its successor
-    let by_design_static = by_design_static || (matches!(mode, AutoCommit::When(AutoCommitWhen::PollingMessages)) && !case.stops.is_empty());
+    let by_design_static = by_design_static || (commits_when_polling(&mode) && !case.stops.is_empty());
     if by_design_static {
         out.label("static-polling-by-design");
     }
